@@ -9,6 +9,7 @@ CONSTANTS
   QW = 1
   MaxNow = 3
   Shutdowns = FALSE
+  Faults = FALSE
   SplitSlotCheck = FALSE
   RequeueNewTs = FALSE
   StopAllGuarded = TRUE
@@ -17,6 +18,8 @@ CONSTANTS
   HeapFifo = TRUE
   SlotStrict = TRUE
   CallsStopAll = TRUE
+  PushBeforeRegister = FALSE
+  FaultDropsHead = FALSE
 SPECIFICATION Spec
 INVARIANTS TypeOK OneVerdict OnlyIfQuota Order SizeBound NoCrash Protocol Faithful
 VIEW View
